@@ -1,28 +1,5 @@
 """Single source for MANIFEST.json: claimed properties and the N/A list."""
 
-# id -> (technique, level text, level note, design_ref)
-CLAIMED = {
-    'C15': (
-        'AST class-table analysis: dataclass-field vs _traversable agreement, static visitor/mapper dispatch, '
-        'sibling-mapper child-coverage comparison',
-        'Decides a structural necessary condition of completeness only: every Expression/Node-typed field of all '
-        '47 IR node classes is traversable, the walk mapper behind the Find* visitors recurses into every child its '
-        'sibling mappers recurse into (36 expression classes), finder handlers visit o.children for every node class '
-        '(8 finders x 47 classes), FindNodes is pre-order. Does NOT decide ordering/uniqueness behaviour.',
-        'Trusts annotations as the statement of which fields hold expressions; exemption table for attached '
-        'pragma/comment metadata and literal-only fields is in sa/rules/c15.py.',
-        'DESIGN.md section 3, C15'),
-    'C26': (
-        'static visitor dispatch totality + intra-procedural may-flow (taint) from node fields to the def/use sinks; '
-        'finite-domain evaluation of the intent filters',
-        'Decides structural necessary conditions of the over-approximation: every IR node class (47) is handled by a '
-        'dataflow handler that funnels into visit_Node; every expression/body field flows into uses/defines; the intent '
-        'filters cover {none,in,out,inout}; sequencing (uses before defines) and union merges. Does NOT decide aliasing, '
-        'array sections or interprocedural effects.',
-        'May-flow is flow-insensitive inside one handler; exemption table (fields naming entities) in sa/rules/c26.py.',
-        'DESIGN.md section 3, C26'),
-}
-
 NOT_APPLICABLE = {
     'C02': 'Fixpoint of print-parse is equality of two runtime strings/trees; no code-shape necessary condition '
            'beyond those claimed under C01/C06.',
